@@ -155,6 +155,9 @@ def run(eng, rep, tier):
               "IndexedGrammar.intersection does not intersect self with the transducer of the automaton", sx,
               site=site_of(prog, fx, fx.node))
     names.check(eng, rep, "C17")
+    # the four rule kinds are compared with each other when rule lists are de-duplicated: symmetric __eq__
+    from . import eqsym
+    eqsym.check(eng, ob, "C17.3", "pyformlang.indexed_grammar.reduced_rule.ReducedRule")
     rep.stats.update(eng.stats())
     rep.floor = 20
 
